@@ -29,7 +29,11 @@ RULE = ('tuple cases: (n, mixed-radix tuple t); every tuple of the complete doma
         'array/list arguments at call time, judges against the snapshot and reports <fn>/mutates-argument; the same matrix '
         'object queried repeatedly, results edited in place by the caller and the call repeated, refilled work buffers '
         '(matrix, vectors, tuple-list), get_number/from_int_tuple in descending-n order with a repeat at the end, '
-        'numpy-integer / list / ndarray tuple entries, Fortran / strided / transposed / negative-stride matrices and int64 copies')
+        'numpy-integer / list / ndarray tuple entries, Fortran / strided / transposed / negative-stride matrices and int64 copies. API-form cases: every vector pair is applied in '
+        'both documented forms transvection(v0,h0,h1) and transvection(transvection(v0,h0),h1), plus 0 / 3 transvections and 2-D x; the '
+        'transvection contract judges every call form (value, 0/1 result of the input integer type, no aliasing); get_number / '
+        'rand_SpF2 / from_int_tuple / to_int_tuple / inverse / find_transvection positionally and by keyword, explicit defaults, '
+        'numpy-integer n; the parameter order of the shipped API is pinned (SIGNATURES)')
 EXHAUSTIVE = {'quick': True, 'thorough': True}
 EXHAUSTIVE_DOMAINS = {
     'quick': ['all tuples n=1 (6), n=2 (720)', 'all 16 / 65536 binary matrices n=1,2 (brute-force group list)',
@@ -46,6 +50,8 @@ ASSUMPTIONS = ['symplectic form Lambda=[[0,I],[I,0]], matrices act on row vector
 DECIDING = ['numqi.group.spf2.get_number', 'numqi.group.spf2.from_int_tuple', 'numqi.group.spf2.to_int_tuple',
             'numqi.group.spf2.inverse', 'numqi.group.spf2.find_transvection', 'numqi.group.spf2.transvection',
             'numqi.random._spf2.rand_SpF2', 'workload/tuple-roundtrip', 'workload/image-count', 'workload/vector-pair',
+            'workload/vector-pair-nested', 'transvection/form/1d-x/0-h', 'transvection/form/1d-x/1-h', 'transvection/form/1d-x/2-h',
+            'transvection/form/1d-x/3-h', 'transvection/form/2d-x/1-h', 'transvection/form/2d-x/2-h', 'transvection/form/2d-x/3-h', 'workload/api-forms',
             'workload/history']
 TECHNIQUE = ('contracts on the real spf2 functions (symplecticity, two-sided inverse, transvection value, tuple range, '
              'from(to(S))==S) + exhaustive tuple/vector-pair enumeration with injectivity/count checks against an own '
@@ -54,6 +60,12 @@ LEVEL_TEXT = 'runtime monitoring; finite domains n<=2 (quick) / n<=3 (thorough) 
 LEVEL_NOTE = 'n>=4 tuple domains (4.7e10 elements and up) are only sampled'
 
 NPARTS_N3 = 16
+
+# parameter order of the shipped API (docstring "Parameters:" sections), pinned as the specification for positional calls
+SIGNATURES = {
+    'get_number': ['n', 'kind'], 'from_int_tuple': ['int_tuple'], 'to_int_tuple': ['mat'], 'inverse': ['mat'],
+    'find_transvection': ['v0', 'v1'], 'transvection': ['x', '*h_list'], 'rand_SpF2': ['n', 'return_kind', 'seed'],
+}
 
 
 def shards(tier, seed):
@@ -116,8 +128,14 @@ def _at_call_time(cur, snp):
 
 
 def install(ctx, numqi):
+    import inspect
     sp = numqi.group.spf2
     state = {'to_depth': 0}
+    for fname, expected in SIGNATURES.items():
+        f = getattr(numqi.random._spf2 if fname == 'rand_SpF2' else sp, fname)
+        got = [('*' + q.name) if q.kind is q.VAR_POSITIONAL else q.name for q in inspect.signature(f).parameters.values()]
+        ctx.check(got == expected, f'{fname}/signature-changed', f'parameter order of {fname} differs from the documented one (positional callers break)',
+                  {'got': got, 'documented': expected})
 
     def args_unmodified(fn, c, pairs):
         """(3) a monitored function must not modify its array / list arguments: pairs = [(name, current, snapshot)];
@@ -273,19 +291,26 @@ def install(ctx, numqi):
     ctx.attach(sp, 'find_transvection', pre=pre_find, post=post_find)
 
     # ---------------- transvection
+    def _tv_args(c):
+        """x may be given by keyword (then every positional argument is a transvection)"""
+        return ([c.kwargs['x']] if 'x' in c.kwargs else []) + list(c.args)
+
     def pre_transvection(c):
-        return [_snap(a) for a in c.args] if c.args else None
+        a = _tv_args(c)
+        return [_snap(t) for t in a] if a else None
 
     def post_transvection(c):
-        if not c.args or c.snap is None:
+        """judges EVERY call form: 0, 1, 2, 3... transvections, 1-D and 2-D x"""
+        allargs = _tv_args(c)
+        if not allargs or c.snap is None:
             return
-        x_now = c.args[0]
-        same = args_unmodified('transvection', c, [('x' if i == 0 else f'h[{i - 1}]', a, b) for i, (a, b) in enumerate(zip(c.args, c.snap))])
+        x_now = allargs[0]
+        same = args_unmodified('transvection', c, [('x' if i == 0 else f'h[{i - 1}]', a, b) for i, (a, b) in enumerate(zip(allargs, c.snap))])
         if same:
-            x, hs = x_now, c.args[1:]
+            x, hs = x_now, allargs[1:]
         else:   # judged against the call-time contents
             x = _at_call_time(x_now, c.snap[0])
-            hs = [_at_call_time(a, b) for a, b in zip(c.args[1:], c.snap[1:])]
+            hs = [_at_call_time(a, b) for a, b in zip(allargs[1:], c.snap[1:])]
         if c.exc is not None:
             return
         if not (isinstance(x, np.ndarray) and x.ndim in (1, 2) and x.dtype.kind in 'ui'
@@ -293,15 +318,22 @@ def install(ctx, numqi):
                 and x.shape[-1] % 2 == 0 and int(x.max(initial=0)) <= 1 and all(int(h.max(initial=0)) <= 1 for h in hs)):
             ctx.hit('transvection/unchecked-argument')
             return
+        ctx.hit(f'transvection/form/{x.ndim}d-x/{min(len(hs), 3)}{"+" if len(hs) > 3 else ""}-h')
         ref = rs.transvect(x, *hs)
-        r = np.asarray(c.result)
-        ctx.check(r.shape == ref.shape and np.array_equal(r, ref), 'transvection/value',
+        r = c.result
+        ok = isinstance(r, np.ndarray) and r.shape == ref.shape
+        ctx.check(ok and np.array_equal(r, ref), 'transvection/value',
                   'transvection(x,*h) differs from x + <x,h> h applied successively (reference)',
                   lambda: {'x': x, 'h': [h for h in hs], 'got': r, 'expected': ref})
-        if len(hs) and isinstance(c.result, np.ndarray):
-            ctx.check(not any(c.result is a for a in c.args) and c.result.base is None,
-                      'transvection/result-aliases-argument', 'transvection(x,h,...) returns (a view of) another array instead of a fresh one',
-                      {'x_shape': list(x.shape), 'n_h': len(hs)})
+        if ok:
+            # an F2 vector stays an F2 vector of the input's integer type (uint8 in, uint8 0/1 out) in every call form
+            same_kind = r.dtype == np.result_type(x.dtype, *[h.dtype for h in hs])
+            ctx.check(same_kind and int(r.max(initial=0)) <= 1 and (r.dtype.kind == 'u' or int(r.min(initial=0)) >= 0), 'transvection/result-not-binary',
+                      'transvection result is not a 0/1 array of the integer type of its inputs', lambda: {'x': x, 'h': [h for h in hs], 'got': r, 'dtype': str(r.dtype)})
+            if len(hs):
+                ctx.check(not any(r is a for a in allargs) and r.base is None,
+                          'transvection/result-aliases-argument', 'transvection(x,h,...) returns (a view of) another array instead of a fresh one',
+                          {'x_shape': list(x.shape), 'n_h': len(hs)})
 
     ctx.attach(sp, 'transvection', pre=pre_transvection, post=post_transvection)
 
@@ -379,10 +411,34 @@ def run(ctx, shard):
         with ctx.guard('pair'):
             H = sp.find_transvection(v0.copy(), v1.copy())
             if isinstance(H, np.ndarray) and H.shape == (2, v0.size):
+                # documented form 1: v1 = transvection(v0, h0, h1)
                 img = sp.transvection(v0.copy(), H[0], H[1])
                 ctx.check(np.array_equal(np.asarray(img), v1), 'pair/transvection(v0,*find(v0,v1))!=v1',
                           'numqi.transvection applied with the returned pair does not give v1',
                           lambda: {'v0': v0, 'v1': v1, 'h0': H[0], 'h1': H[1], 'image': img}, point='workload/vector-pair')
+                # documented form 2: v1 = transvection(transvection(v0, h0), h1)  (two single-transvection calls)
+                mid = sp.transvection(v0.copy(), H[0])
+                img2 = sp.transvection(mid, H[1]) if isinstance(mid, np.ndarray) and mid.shape == v0.shape else None
+                ctx.check(isinstance(img2, np.ndarray) and img2.shape == v1.shape and np.array_equal(img2, v1), 'pair/nested-form!=v1',
+                          'transvection(transvection(v0,h0),h1) does not give v1 (the joint form is judged separately)',
+                          lambda: {'v0': v0, 'v1': v1, 'h0': H[0], 'h1': H[1], 'middle': mid, 'image': img2}, point='workload/vector-pair-nested')
+                # other call forms: none, three (h1 twice = identity on the middle vector), 2-D x with one / two transvections
+                z = sp.transvection(v0.copy())
+                ctx.check(isinstance(z, np.ndarray) and np.array_equal(z, v0), 'transvection/no-transvection-changes-x', 'transvection(x) != x', {'x': v0})
+                t3 = sp.transvection(v0.copy(), H[0], H[1], H[1])
+                ctx.check(isinstance(t3, np.ndarray) and isinstance(mid, np.ndarray) and np.array_equal(t3, mid), 'transvection/three!=one',
+                          'transvection(v,h0,h1,h1) != transvection(v,h0) (a transvection is an involution)', lambda: {'v': v0, 'h0': H[0], 'h1': H[1]})
+                X = np.stack([v0, v1])
+                r1 = sp.transvection(X, H[0])
+                ctx.check(isinstance(r1, np.ndarray) and isinstance(mid, np.ndarray) and r1.shape == X.shape and np.array_equal(r1[0], mid),
+                          'transvection/batched!=single', '2-D x with one transvection: row 0 differs from the 1-D call', lambda: {'v': v0, 'h': H[0]})
+                r2 = sp.transvection(X, H[0], H[1])
+                ctx.check(isinstance(r2, np.ndarray) and r2.shape == X.shape and np.array_equal(r2[0], v1), 'transvection/batched!=single',
+                          '2-D x with two transvections: row 0 is not v1', lambda: {'v0': v0, 'v1': v1})
+                if worst['pairs'] % 7 == 0:   # keyword form of find_transvection
+                    Hk = sp.find_transvection(v1=v1.copy(), v0=v0.copy())
+                    ctx.check(isinstance(Hk, np.ndarray) and np.array_equal(Hk, H), 'find_transvection/positional-call-differs-from-keyword-call',
+                              'find_transvection(v0, v1) != find_transvection(v0=v0, v1=v1)', {'v0': v0, 'v1': v1})
             worst['pairs'] += 1
 
     def count_check(n, images, ntuples, full):
@@ -425,8 +481,21 @@ def run(ctx, shard):
             # the domain driven is the library's own mixed-radix domain (so that surjectivity is about what the library
             # can index); the reference bases are compared in the get_number contract
             for t in itertools.product(*[range(b) for b in base]):
-                tuple_case(n, t, images, sample=(ntuples % 181 == 7))
+                S = tuple_case(n, t, images, sample=(ntuples % 181 == 7))
                 ntuples += 1
+                if S is not None:   # the same tuple as list / ndarray / numpy integers / by keyword, matrix by keyword
+                    with ctx.guard('tuple-forms'):
+                        forms = {'list': list(t), 'ndarray': np.array(t, dtype=np.int64), 'np.int64-entries': tuple(np.int64(x) for x in t),
+                                 'np.uint16-entries': tuple(np.uint16(x) for x in t)}
+                        for fn_, v in forms.items():
+                            ctx.check(np.array_equal(sp.from_int_tuple(v), S), 'from_int_tuple/int-type-dependent',
+                                      'list / ndarray / numpy-integer tuple entries give a different matrix than python ints', {'variant': fn_, 'tuple': list(t)})
+                        ctx.check(np.array_equal(sp.from_int_tuple(int_tuple=t), S), 'from_int_tuple/positional-call-differs-from-keyword-call',
+                                  'from_int_tuple(int_tuple=t) != from_int_tuple(t)', {'tuple': list(t)})
+                        ctx.check(sp.to_int_tuple(mat=S) == t, 'to_int_tuple/positional-call-differs-from-keyword-call', 'to_int_tuple(mat=S) != to_int_tuple(S)',
+                                  {'tuple': list(t)})
+                        ctx.check(np.array_equal(sp.inverse(mat=S), sp.inverse(S)), 'inverse/positional-call-differs-from-keyword-call',
+                                  'inverse(mat=S) != inverse(S)', {'tuple': list(t)})
             count_check(n, images, ntuples, full=True)
             brute = rs.brute_force_group(n)
             ctx.extra[f'brute_force_group_n{n}'] = len(brute)
@@ -584,7 +653,9 @@ def run(ctx, shard):
                 with ctx.guard('rand_Clifford_group'):
                     numqi.random.rand_Clifford_group(n, seed=seed)
     elif name == 'histories':
+        # call-order sensitive part first (descending n in a fresh process), then the API forms
         _histories(ctx, numqi, sp, rng, tuple_case, pair_case)
+        _api_forms(ctx, numqi, sp, rng, pair_case)
     elif name == 'repo-tests':
         ctx.workload('repo-tests')
         _run_repo_tests(ctx, ['tests/tests_group/test_group_spf2.py'])
@@ -621,6 +692,95 @@ def _scribble(a):
         for x in a:
             k += _scribble(x)
     return k
+
+
+def _api_forms(ctx, numqi, sp, rng, pair_case):
+    """every documented way of calling the monitored functions (positional / keyword / explicit defaults / numpy scalars /
+    alternative documented forms), exact special vectors, smallest and largest quick sizes; each call is judged by its contract,
+    the relational checks here compare the forms with each other"""
+    ctx.workload('corner')
+
+    def agree(cond, key, what, wit):
+        ctx.check(cond, key, what, wit, point='workload/api-forms')
+
+    # ---- get_number: positional / keyword / default / numpy integer n / case of kind
+    for n in list(range(1, 11)) + [16]:
+        ctx.set_case({'op': 'get_number-forms', 'n': n})
+        ctx.case('api-get_number', n)
+        with ctx.guard('api/get_number'):
+            for kind in ('base', 'coset', 'order'):
+                a = sp.get_number(n, kind)
+                forms = {'kind=': sp.get_number(n, kind=kind), 'n=,kind=': sp.get_number(n=n, kind=kind), 'kind=,n=': sp.get_number(kind=kind, n=n),
+                         'np.int64 n': sp.get_number(np.int64(n), kind), 'np.uint8 n': sp.get_number(np.uint8(n), kind), 'upper-case kind': sp.get_number(n, kind.upper())}
+                for fn_, b in forms.items():
+                    agree(type(a) is type(b) and a == b, 'get_number/positional-call-differs-from-keyword-call' if '=' in fn_ else 'get_number/int-type-dependent',
+                          'get_number gives different answers for two ways of passing the same arguments', {'n': n, 'kind': kind, 'form': fn_})
+            agree(sp.get_number(n) == sp.get_number(n, 'base') == sp.get_number(n=n), 'get_number/explicit-default-differs',
+                  "get_number(n) != get_number(n,'base')", {'n': n})
+
+    # ---- transvection: every call form on exact special vectors and random ones, smallest (n=1) to largest quick size (n=10)
+    for n in (1, 2, 3, 6, 10):
+        e1 = np.zeros(2 * n, dtype=np.uint8)
+        e1[0] = 1
+        ones = np.ones(2 * n, dtype=np.uint8)
+        zero = np.zeros(2 * n, dtype=np.uint8)
+        last = np.zeros(2 * n, dtype=np.uint8)
+        last[-1] = 1
+        special = [e1, ones, zero, last, np.roll(e1, n)]
+        rnd = [rng.integers(0, 2, size=2 * n).astype(np.uint8) for _ in range(6)]
+        vecs = special + rnd
+        X = np.stack(rnd)
+        for i, x in enumerate(vecs):
+            for j, h in enumerate(vecs):
+                ctx.set_case({'op': 'transvection-forms', 'n': n, 'x': x, 'h': h})
+                ctx.case('api-transvection', x, h, nontrivial=bool(rs.sip(x, h)))
+                with ctx.guard('api/transvection'):
+                    r1 = sp.transvection(x.copy(), h.copy())                      # ONE transvection, 1-D
+                    g = vecs[(i + j + 1) % len(vecs)]
+                    r2 = sp.transvection(x.copy(), h.copy(), g.copy())            # two
+                    r12 = sp.transvection(r1, g.copy()) if isinstance(r1, np.ndarray) and r1.shape == x.shape else None   # nested
+                    agree(isinstance(r12, np.ndarray) and isinstance(r2, np.ndarray) and r12.shape == r2.shape and np.array_equal(r12, r2),
+                          'transvection/nested-form-differs-from-joint-form', 'transvection(transvection(x,h),g) != transvection(x,h,g)',
+                          lambda: {'x': x, 'h': h, 'g': g, 'nested': r12, 'joint': r2})
+                    r11 = sp.transvection(r1, h.copy()) if isinstance(r1, np.ndarray) and r1.shape == x.shape else None
+                    agree(isinstance(r11, np.ndarray) and np.array_equal(r11, x), 'transvection/not-an-involution',
+                          'applying the same single transvection twice does not give x back', lambda: {'x': x, 'h': h, 'once': r1, 'twice': r11})
+                    sp.transvection(x.copy(), h.copy(), g.copy(), h.copy())      # three
+                    sp.transvection(x=x.copy())                                  # none, x by keyword
+            with ctx.guard('api/transvection-2d'):
+                h = vecs[i]
+                b1 = sp.transvection(X.copy(), h.copy())                          # 2-D x, one transvection
+                rows = [sp.transvection(r.copy(), h.copy()) for r in X]
+                agree(isinstance(b1, np.ndarray) and b1.shape == X.shape and all(isinstance(r, np.ndarray) and r.shape == X[0].shape for r in rows)
+                      and np.array_equal(b1, np.stack(rows)), 'transvection/batched!=single', '2-D x: rows differ from the 1-D single-transvection calls',
+                      {'n': n, 'h': h})
+                sp.transvection(X.copy())
+                sp.transvection(X[:1].copy(), h.copy(), h.copy(), h.copy())
+
+    # ---- vector pairs through pair_case (both documented forms) at the smallest size and on special vectors of the largest
+    for n in (1, 10):
+        vs = list(rs.nonzero_vectors(1)) if n == 1 else [v for v in (np.eye(2 * n, dtype=np.uint8)[0], np.ones(2 * n, dtype=np.uint8),
+                                                              np.eye(2 * n, dtype=np.uint8)[-1], np.eye(2 * n, dtype=np.uint8)[n])]
+        for v0 in vs:
+            for v1 in vs:
+                pair_case(v0.copy(), v1.copy())
+
+    # ---- rand_SpF2: positional / keyword / explicit default / numpy integer n / case of return_kind
+    ctx.workload('realistic')
+    for it in range(12):
+        n = [1, 2, 10][it % 3] if it < 6 else int(rng.integers(1, 9))
+        seed = int(rng.integers(2**31))
+        ctx.set_case({'op': 'rand_SpF2-forms', 'n': n, 'seed': seed})
+        ctx.case('api-rand_SpF2', n, seed)
+        with ctx.guard('api/rand_SpF2'):
+            R = numqi.random.rand_SpF2
+            for kind in ('matrix', 'int_tuple', 'int_tuple-matrix'):
+                a = R(n, kind, seed)
+                for fn_, b in {'keywords': R(n=n, return_kind=kind, seed=seed), 'mixed': R(n, seed=seed, return_kind=kind),
+                               'np.int64 n': R(np.int64(n), kind, seed), 'upper-case kind': R(n, kind.upper(), seed)}.items():
+                    agree(_eq(a, b), 'rand_SpF2/positional-call-differs-from-keyword-call' if fn_ in ('keywords', 'mixed') else 'rand_SpF2/int-type-dependent',
+                          'rand_SpF2 with the same seed gives different results for two ways of passing the same arguments', {'n': n, 'kind': kind, 'form': fn_})
+            agree(_eq(R(n, seed=seed), R(n, 'matrix', seed)), 'rand_SpF2/explicit-default-differs', "rand_SpF2(n, seed=s) != rand_SpF2(n, 'matrix', s)", {'n': n})
 
 
 def _histories(ctx, numqi, sp, rng, tuple_case, pair_case):
